@@ -38,8 +38,9 @@ type FuncContract struct {
 	Safety   map[string]bool // claimed safety obligation kinds
 	Tags     []string        // properties for safety obligations / frame
 	Replay   string
-	Inline   bool     // "inline": body inlined at call sites even though loop invariants are given
-	Params   []string // optional explicit parameter names for externs (positional)
+	Inline   bool              // "inline": body inlined at call sites even though loop invariants are given
+	Params   []string          // optional explicit parameter names for externs (positional)
+	Locals   map[string]string // name -> type of the locals mentioned by loop invariants, as pinned by `locals`
 	File     string
 	Line     int
 	NoVerify bool     // extern: body not verified
@@ -93,7 +94,7 @@ type ContractFile struct {
 	Imports map[string]string
 }
 
-var keywordRe = regexp.MustCompile(`^(func|extern|requires|ensures|assumes|modifies|loop|pure|lemma|ghost|replay|inline|axiom|safety|tags|params|fresh|devirtualize|import)\b`)
+var keywordRe = regexp.MustCompile(`^(func|extern|requires|ensures|assumes|modifies|loop|pure|lemma|ghost|replay|inline|axiom|safety|tags|params|locals|fresh|devirtualize|import)\b`)
 var tagRe = regexp.MustCompile(`^\[([A-Za-z0-9, ]+)\]\s*`)
 var labelRe = regexp.MustCompile(`^([A-Za-z][A-Za-z0-9_\-\.]*):\s+`)
 
@@ -259,6 +260,16 @@ func parseContractFile(path, pkgPath string, stripPrefix bool) (*ContractFile, e
 			}
 		case "params":
 			cur.Params = strings.Fields(strings.ReplaceAll(it.text, ",", " "))
+		case "locals":
+			// types of the locals the loop invariants mention, pinned when the contract was written (rebind.go)
+			if cur.Locals == nil {
+				cur.Locals = map[string]string{}
+			}
+			for _, part := range strings.Split(it.text, ";") {
+				if i := strings.Index(part, ":"); i > 0 {
+					cur.Locals[strings.TrimSpace(part[:i])] = strings.TrimSpace(part[i+1:])
+				}
+			}
 		case "fresh":
 			cur.Fresh = append(cur.Fresh, strings.Fields(strings.ReplaceAll(it.text, ",", " "))...)
 		case "import":
